@@ -441,6 +441,8 @@ impl<'l, Data> EventLoop<'l, Data> {
         data: &mut Data,
     ) -> crate::Result<()> {
         let now = Instant::now();
+        // Synthetic events of a previous dispatch that failed before delivering them are stale
+        self.synthetic_events.clear();
         {
             let mut extra_lifecycle_sources = self
                 .handle
